@@ -1,6 +1,7 @@
 package gen
 
 import (
+	"encoding/base64"
 	"encoding/json"
 	"fmt"
 	"math/big"
@@ -11,6 +12,7 @@ import (
 	sdk "github.com/cosmos/cosmos-sdk/types"
 
 	data "github.com/regen-network/regen-ledger/x/data/v3"
+	datahasher "github.com/regen-network/regen-ledger/x/data/v3/server/hasher"
 	base "github.com/regen-network/regen-ledger/x/ecocredit/v3/base/types/v1"
 	basket "github.com/regen-network/regen-ledger/x/ecocredit/v3/basket/types/v1"
 	market "github.com/regen-network/regen-ledger/x/ecocredit/v3/marketplace/types/v1"
@@ -480,7 +482,39 @@ func runData(c Cfg) *Result {
 	if !chain.WeakHasherAvailable {
 		kind = chain.HasherProd
 	}
-	g := NewG(c, chain.Options{GenesisTime: T0, HasherKind: kind})
+	opts := chain.Options{GenesisTime: T0, HasherKind: kind}
+	if kind == chain.HasherProd && c.N%2 == 1 {
+		// a hand-written data genesis: DataID rows (on the probe path of their IRI) WITHOUT anchors, which the chain's
+		// own exports never contain; the first message touching such an IRI (Anchor, Attest or RegisterResolver) must
+		// anchor it at that block time
+		opts.Patch = func(gen map[string]json.RawMessage) {
+			h, err := datahasher.NewHasher()
+			if err != nil {
+				panic(err)
+			}
+			var rows []map[string]interface{}
+			for i := 0; i < 4; i++ {
+				ch := &data.ContentHash{Graph: chain.GraphHash(hash32(fmt.Sprintf("content-%d-%d", c.N%4, i)))}
+				iri, err := ch.ToIRI()
+				if err != nil {
+					panic(err)
+				}
+				rows = append(rows, map[string]interface{}{"id": base64.StdEncoding.EncodeToString(h.CreateID([]byte(iri), 0)), "iri": iri})
+			}
+			var dg map[string]json.RawMessage
+			if err := json.Unmarshal(gen[chain.GenData], &dg); err != nil {
+				panic(err)
+			}
+			bz, _ := json.Marshal(rows)
+			dg["regen.data.v1.DataID"] = bz
+			out, _ := json.Marshal(dg)
+			gen[chain.GenData] = out
+		}
+	}
+	g := NewG(c, opts)
+	if opts.Patch != nil {
+		g.bump("data-genesis:ids-without-anchors")
+	}
 	g.bump("hasher:" + kind)
 	g.rollbackEvery = 6
 	a := g.App
